@@ -10,7 +10,45 @@ import (
 )
 
 type Locker = real.Locker
-type Pool = real.Pool
+// Pool is a deterministic stand-in for sync.Pool. The real one may drop any idle
+// item at any time (every garbage collection does); which items survive is an
+// environment answer, so it is owned here: by default nothing is dropped, with
+// PoolForgets set everything put back is dropped at once - both are behaviours the
+// sync.Pool contract allows, and code that relies on either one is wrong.
+type Pool struct {
+	New   func() any
+	mu    real.Mutex
+	items []any
+}
+
+// PoolForgets makes every Pool forget what is put back (a collection between
+// any Put and the next Get). Set by harnesses, reset by them.
+var PoolForgets bool
+
+func (p *Pool) Get() any {
+	p.mu.Lock()
+	if n := len(p.items); n > 0 && !PoolForgets {
+		x := p.items[n-1]
+		p.items = p.items[:n-1]
+		p.mu.Unlock()
+		return x
+	}
+	p.items = nil
+	p.mu.Unlock()
+	if p.New != nil {
+		return p.New()
+	}
+	return nil
+}
+
+func (p *Pool) Put(x any) {
+	if x == nil || PoolForgets {
+		return
+	}
+	p.mu.Lock()
+	p.items = append(p.items, x)
+	p.mu.Unlock()
+}
 type Map = real.Map
 
 type Mutex struct {
